@@ -519,4 +519,241 @@ def rule_match(ctx) -> RuleResult:
     return res
 
 
-RULES = [rule_cache, rule_prov, rule_match]
+def _const_facts(fn_node, given=None):
+    """{'const:<name>': value} for locals bound exactly once, to a constant (a parameter bound to the literal argument of an expanded
+    call, a default) — what kinds.reach needs to drop the branches such a constant rules out."""
+    import ast
+
+    from ..normalize import single_assignments
+
+    facts = dict(given or {})
+    for k, v in single_assignments(fn_node).items():
+        if isinstance(v, ast.Constant) and ("const:" + k) not in facts:
+            facts["const:" + k] = v.value
+    return facts
+
+
+def _stored_overwrites(ctx, K, fn, is_stored, new_names, facts0=None, depth=0, seen=None):
+    """Statements `A[i] = v` / `A[i] op= v` on a feasible path of fn (normalised view; branches ruled out by constant modes dropped)
+    where A is one of the stored arrays and v is computed from the values being added — looked for in fn and in the package functions
+    that are handed a stored array and added values but could not be expanded in place.  [(view, statement)]"""
+    import ast
+
+    from ..kinds import reach
+    from ._c17_flow import Flow, key_of
+
+    seen = seen if seen is not None else set()
+    if depth > 2 or id(fn.node) in seen:
+        return []
+    seen.add(id(fn.node))
+    v = ctx.view(fn)
+    fl = Flow(v.node)
+    rebound = {d.key for d in fl.defs if not d.scoped}
+    facts = _const_facts(v.node, {k: x for k, x in (facts0 or {}).items() if k.split(":", 1)[1] not in rebound})
+    feasible = reach(fl.g, [fl.g.entry], var="_", facts=facts)
+    hits = []
+
+    def added(e, env=None):
+        return bool(fl.roots(e, env) & set(new_names))
+
+    for node in feasible:
+        st = node.ast
+        if node.kind != "stmt" or st is None or isinstance(st, list):
+            continue
+        env = fl.env([node])
+        if isinstance(st, (ast.Assign, ast.AugAssign)) and st.value is not None:
+            for t in (st.targets if isinstance(st, ast.Assign) else [st.target]):
+                for e in (t.elts if isinstance(t, (ast.Tuple, ast.List)) else [t]):
+                    b = e
+                    while isinstance(b, ast.Subscript):
+                        b = b.value
+                    if b is e or key_of(b) is None:
+                        continue
+                    rb, renv = fl.resolve(b, env)
+                    if is_stored(rb, v) and added(st.value, env):
+                        hits.append((v, st))
+        for c in [x for x in ast.walk(st) if isinstance(x, ast.Call)]:
+            rc = _resolve_callee(ctx, K, v, c)
+            if rc is None or rc[0].node is fn.node:
+                continue
+            callee, drop = rc
+            ps = callee.params[1:] if drop else callee.params
+            bound = dict(zip(ps, c.args))
+            bound.update({k.arg: k.value for k in c.keywords if k.arg})
+            stored_ps = {q for q, a in bound.items() if key_of(a) is not None and is_stored(fl.resolve(a, env)[0], v)}
+            new_ps = {q for q, a in bound.items() if q not in stored_ps and added(a, env)}
+            if not stored_ps or not new_ps:
+                continue
+            a = callee.node.args
+            names = [x.arg for x in a.posonlyargs + a.args]
+            defaults = dict(zip(names[len(names) - len(a.defaults):], a.defaults))
+            defaults.update({k.arg: d for k, d in zip(a.kwonlyargs, a.kw_defaults) if d is not None})
+            cf = {}
+            for q in set(names) | {k.arg for k in a.kwonlyargs}:
+                val = bound.get(q, defaults.get(q))
+                if val is not None and key_of(val) is not None:
+                    val = fl.resolve(val, env)[0]
+                if isinstance(val, ast.Constant):
+                    cf["const:" + q] = val.value
+            hits += [(v, c) for _x in _stored_overwrites(
+                ctx, callee.cls if callee.cls is not None else K, callee,
+                lambda e, _v, sp=stored_ps: isinstance(e, ast.Name) and e.id in sp, new_ps, cf, depth + 1, seen)][:1]
+    return hits
+
+
+def rule_keep(ctx) -> RuleResult:
+    import ast
+
+    from ..model import AnalysisError
+    from ._c17_flow import key_of
+
+    res = RuleResult(
+        "C18.KEEP",
+        "C18",
+        "while depth / interval data are merged onto a hole, the depths already stored (DEPTH, FROM, TO values) are never overwritten "
+        "with the depths being added: a vertex stays labelled with the depth it was placed at (a collocated addition re-uses the "
+        "vertex and its stored depth)",
+        floor=2,
+    )
+    dh = ctx.p.cls("Drillhole")
+    stored_props = ("depths", "from_", "to_")
+    for name in _ENTRY_POINTS:
+        fn = dh.methods.get(name)
+        if fn is None:
+            raise AnalysisError(f"anchor Drillhole.{name} not found")
+        sn = fn.self_name or "self"
+        new_names = [q for q in fn.params[1:] if q in _DEPTH_PARAMS]
+
+        def is_stored(e, _v, sn=sn):
+            k = key_of(e)
+            return k is not None and any(k == f"{sn}.{a}" or k.startswith(f"{sn}.{a}.") for a in stored_props)
+
+        hits = _stored_overwrites(ctx, dh, fn, is_stored, new_names)
+        res.inst(f"Drillhole.{name}: no element of the stored depths is assigned from `{', '.join(new_names)}`", nontrivial=True, ok=not hits)
+        for v, st in hits[:1]:
+            res.find("Drillhole", name, "stored depths are overwritten with the depths being added", f"{fn.module.relpath}:{st.lineno}",
+                     "the depth recorded for an existing vertex is replaced by the collocated new depth while the vertex stays where it is: "
+                     "the vertex no longer sits at the position of its depth, and values added earlier move to another depth (creeping with every addition)")
+    return res
+
+
+_TRIG = {"sin", "cos", "tan", "sincos"}
+
+
+def rule_dev(ctx) -> RuleResult:
+    import ast
+
+    from ..model import AnalysisError
+    from ._c17_flow import Flow, call_name, key_of
+
+    res = RuleResult(
+        "C18.DEV",
+        "C18",
+        "within a survey leg the hole advances along the mean of the two station directions: every evaluation of a direction "
+        "(a trigonometric function, or a function of the package that evaluates one) in compute_deviation takes the angles of one "
+        "station; the angles of the two stations of a leg are never combined before the direction is evaluated",
+        floor=1,
+    )
+    p = ctx.p
+    cands = [f for f in p.all_functions() if f.name == "compute_deviation" and f.cls is None]
+    if len(cands) != 1:
+        raise AnalysisError(f"anchor compute_deviation resolves to {len(cands)} functions")
+    fn0 = cands[0]
+    if not fn0.params:
+        raise AnalysisError("compute_deviation takes no survey table")
+    memo = {}
+
+    def evaluates_direction(f, depth=0):
+        """the function (of the package) calls a trigonometric function, directly or through what it calls"""
+        if id(f.node) in memo:
+            return memo[id(f.node)]
+        memo[id(f.node)] = False
+        out = False
+        for c in ast.walk(f.node):
+            if isinstance(c, ast.Call):
+                if call_name(c) in _TRIG:
+                    out = True
+                elif depth < 2 and isinstance(c.func, ast.Name):
+                    r = p.resolve_name(f.module, c.func.id)
+                    if r and r[0] == "func" and evaluates_direction(r[1], depth + 1):
+                        out = True
+        memo[id(f.node)] = out
+        return out
+
+    seen = set()
+
+    def scan(fn, table, fparams, depth=0):
+        """fn receives the survey table as parameter `table`; fparams: parameter -> functions of the package it may stand for"""
+        if depth > 3 or (id(fn.node), table) in seen:
+            return
+        seen.add((id(fn.node), table))
+        v = ctx.view(fn)
+        fl = Flow(v.node)
+
+        def functions_of(e):
+            """package functions the expression may denote: the function itself, a local / loop variable running over a list of
+            functions, a parameter the caller bound to functions"""
+            out = set()
+            for x in fl.atoms(e):
+                if isinstance(x, ast.Name):
+                    r = p.resolve_name(v.module, x.id)
+                    if r and r[0] == "func":
+                        out.add(r[1])
+            for q in fl.roots(e) if fl.nodes_of(e) else ():
+                out |= fparams.get(q, set())
+            return out
+
+        def is_direction_call(c):
+            if call_name(c) in _TRIG:
+                return True
+            return isinstance(c.func, ast.Name) and any(f.node is not fn.node and evaluates_direction(f) for f in functions_of(c.func))
+
+        def station_ranges(e):
+            """row ranges of the survey table (other than all rows) the expression is computed from"""
+            out = set()
+            for x in fl.atoms(e):
+                if isinstance(x, ast.Subscript):
+                    b, _env = fl.resolve(x.value) if fl.nodes_of(x.value) else (x.value, None)
+                    if not (isinstance(b, ast.Name) and b.id == table):
+                        continue
+                    rows = x.slice.elts[0] if isinstance(x.slice, ast.Tuple) and x.slice.elts else x.slice
+                    if isinstance(rows, ast.Slice) and (rows.lower is not None or rows.upper is not None or rows.step is not None):
+                        out.add(ast.unparse(rows))
+                    elif not isinstance(rows, ast.Slice) and not isinstance(x.slice, ast.Tuple):
+                        out.add(ast.unparse(rows))
+            return out
+
+        for c in ast.walk(v.node):
+            if not (isinstance(c, ast.Call) and fl.nodes_of(c)):
+                continue
+            args = list(c.args) + [k.value for k in c.keywords]
+            if is_direction_call(c):
+                for a in args:
+                    rng = station_ranges(a)
+                    if not rng and not (fl.roots(a) & {table}):
+                        continue
+                    ok = len(rng) <= 1
+                    res.inst(f"{fn.name}:{c.lineno} direction evaluated at the angles of one station ({sorted(rng)})", nontrivial=True, ok=ok)
+                    if not ok:
+                        res.find(fn0.module.short, fn0.name, "a direction is evaluated at angles combined from two stations", f"{fn.module.relpath}:{c.lineno}",
+                                 "the direction of the averaged angles is not the average of the two station directions: the path is wrong on every curved "
+                                 "leg and points the opposite way when the azimuth wraps through North (350 deg -> 10 deg gives 180 deg)")
+                continue
+            # the whole table handed on to a function of the package that could not be expanded here: looked at there
+            rc = _resolve_callee(ctx, fn.cls, v, c)
+            if rc is None or rc[0].node is fn.node:
+                continue
+            callee, drop = rc
+            ps = callee.params[1:] if drop else callee.params
+            bound = dict(zip(ps, c.args))
+            bound.update({k.arg: k.value for k in c.keywords if k.arg})
+            for q, a in bound.items():
+                b = fl.resolve(a)[0] if fl.nodes_of(a) and key_of(a) is not None else a
+                if isinstance(b, ast.Name) and b.id == table:
+                    scan(callee, q, {r: functions_of(x) for r, x in bound.items() if r != q and fl.nodes_of(x)}, depth + 1)
+
+    scan(fn0, fn0.params[0], {})
+    return res
+
+
+RULES = [rule_cache, rule_prov, rule_match, rule_keep, rule_dev]
